@@ -1891,4 +1891,106 @@ Section Cover.
       destruct Ce as (Cw & _). rewrite (watch_of_ino_ext k k0); [exact Cw | reflexivity].
     - reflexivity.
   Qed.
+
+  Lemma RSync_same w w' k k' r r' : wf_fs w' -> RSync w k r ->
+    (forall e, f_dir e = true -> In e (w_fs w) <-> In e (w_fs w')) ->
+    k_watches k' = k_watches k -> k_next_wd k' = k_next_wd k -> k_queue k' = [] ->
+    wfp r' = wfp r -> pfw r' = pfw r -> (forall c x, alookup N.eqb c (mvf r') = Some x -> (c < k_next_cookie k')%N) ->
+    RSync w' k' r'.
+  Proof.
+    intros W' [W Hr I Cv Hq] Hfs Hw Hn Hq' Hwf Hpf Hmv. constructor; try assumption.
+    - destruct Hr as (e & He & Ee & De). exists e. split; [now apply Hfs | auto].
+    - constructor; rewrite ?Hw, ?Hn, ?Hwf, ?Hpf; try apply I; [|exact Hmv].
+      intros kw Hk. destruct (wi_exact _ _ _ I kw Hk) as (e & He & De & R). exists e. split; [now apply Hfs | auto].
+    - intros e He De Se. destruct (Cv e (proj2 (Hfs e De) He) De Se) as (kw & C1 & C2 & C3). exists kw.
+      unfold cov. rewrite Hwf, Hpf, (watch_of_ino_ext k k') by assumption. auto.
+  Qed.
+
+  (* Rename of a file: inside, in, out, replacing a file - the watch state is untouched *)
+  Theorem step_rename_file w k r p q w' ep : RSync w k r -> npath p -> npath q ->
+    N.land IN_MOVED_FROM (c_mask C) <> 0%N -> N.land IN_MOVED_TO (c_mask C) <> 0%N ->
+    apply_op w (Rename p q) = Some w' -> flookup p (w_fs w) = Some ep -> f_dir ep = false ->
+    fisdir (dirname p) (w_fs w) = true ->
+    let k1 := kernel_op k (w_fs w) (Rename p q) in
+    exists r' k' evs, read_batch C (w_fs w') (r, drainq k1, []) (k_queue k1) = Done (r', k', evs) /\ RSync w' k' r' /\
+      wfp r' = wfp r /\ pfw r' = pfw r.
+  Proof.
+    intros S Np Nq Hmf Hmt Ha Elp Dep Edp k1. assert (S0 := S). destruct S as [W Hr I Cv Hq].
+    assert (W' : wf_fs w') by exact (wf_apply_op w (Rename p q) w' W (conj Np Nq) Ha).
+    destruct (rename_inv w p q w' W Np Nq Ha) as (ep' & t1 & Elp' & Hne & Hupq & Edq & -> & Hbelow & Hq1).
+    assert (ep' = ep) by congruence. subst ep'. destruct (flookup_some _ _ _ Elp) as [Hep Eep].
+    destruct (fisdir_in _ _ Edp) as (dp & Hdp & Edp' & Ddp). destruct (fisdir_in _ _ Edq) as (dq & Hdq & Edq' & Ddq).
+    assert (Ip : ino_of (w_fs w) (dirname p) = f_ino dp) by (unfold ino_of; rewrite <- Edp'; now rewrite (flookup_in _ dp (wf_paths w W) Hdp)).
+    assert (Iq : ino_of (w_fs w) (dirname q) = f_ino dq) by (unfold ino_of; rewrite <- Edq'; now rewrite (flookup_in _ dq (wf_paths w W) Hdq)).
+    assert (Fp : fisdir p (w_fs w) = false) by (unfold fisdir; now rewrite Elp).
+    assert (Fq : fisdir q (w_fs w) = false).
+    { unfold fisdir. destruct Hq1 as [[-> _]|(v & -> & _ & [[_ Hv]|(Hd & _)])]; [reflexivity | exact Hv | congruence]. }
+    (* nothing lies below the file p *)
+    assert (Hbp : forall e, In e (w_fs w) -> under p (f_path e) = false).
+    { apply (nothing_below w p dp W Hdp); [rewrite Edp'; now apply under_dirname|]. left.
+      intros (x & Hx & Ex & Dx). assert (x = ep) by (apply (path_inj (w_fs w)); [apply W| | |]; congruence). congruence. }
+    assert (Ht1 : forall e, f_dir e = true -> In e (w_fs w) <-> In e t1).
+    { intros e De. destruct Hq1 as [[_ ->]|(v & Ev & -> & [[_ Hv]|(Hd & _)])]; [tauto | | congruence].
+      rewrite fremove_in. split; [|tauto]. intros He. split; [assumption|]. intros E.
+      destruct (flookup_some _ _ _ Ev) as [Hv' Ev']. assert (e = v) by (apply (path_inj (w_fs w)); [apply W| | |]; congruence).
+      congruence. }
+    assert (Hsub : forall e, In e t1 -> In e (w_fs w)).
+    { intros e He. destruct Hq1 as [[_ ->]|(v & _ & -> & _)]; [assumption | now apply fremove_in in He]. }
+    assert (Hren : forall e, In e (w_fs w) -> f_dir e = true -> ren p q e = e).
+    { intros e He De. unfold ren. destruct (beqb (f_path e) p) eqn:E.
+      - apply beqb_eq in E. assert (e = ep) by (apply (path_inj (w_fs w)); [apply W| | |]; congruence). congruence.
+      - now rewrite Hbp. }
+    assert (Hfs : forall e, f_dir e = true -> In e (w_fs w) <-> In e (frename p q t1)).
+    { intros e De. rewrite frename_map. split.
+      - intros He. rewrite <- (Hren e He De). apply in_map. now apply Ht1.
+      - intros He. apply in_map_iff in He as (e0 & E0 & He0). assert (D0 : f_dir e0 = true) by (rewrite <- E0, ren_dir in De; exact De).
+        rewrite Hren in E0; [subst e0; now apply Hsub | now apply Hsub | exact D0]. }
+    subst k1. cbn [kernel_op w_fs]. rewrite Fq.
+    rewrite rename_kernel; [|exact Hq|].
+    2:{ intros kw Hk. rewrite (wi_mask _ _ _ I kw Hk). now split. }
+    rewrite Ip, Iq, Fp. cbn [k_queue].
+    set (c := k_next_cookie k). set (k0 := drainq _).
+    destruct (npath_parts p Np) as (Ep & Gdp & Vbp & Jp). destruct (npath_parts q Nq) as (Eq & Gdq & Vbq & Jq).
+    assert (SPp : src_path_of (dirname p) (basename p) = p) by (unfold src_path_of; destruct (basename p); [discriminate Vbp | exact Jp]).
+    set (r1 := {| wfp := wfp r; pfw := pfw r; mvf := aset N.eqb c p (mvf r); calls := calls r |}).
+    assert (Hwp : alookup beqb p (wfp r) = None).
+    { destruct (alookup beqb p (wfp r)) as [wd|] eqn:E; [|reflexivity]. exfalso.
+      destruct (tight_entry w k r p wd I E) as (e & _ & He & De & _ & Ee & _).
+      assert (e = ep) by (apply (path_inj (w_fs w)); [apply W| | |]; congruence). congruence. }
+    (* the MOVED_FROM half *)
+    rewrite read_batch_app.
+    assert (Hfrom : exists ra evs1,
+      read_batch C (frename p q t1) (r, k0, [])
+        match watch_of_ino k (f_ino dp) with Some kw => [mv_from kw false c (basename p)] | None => [] end = Done (ra, k0, evs1) /\
+      (ra = r \/ ra = r1) /\
+      (alookup N.eqb c (mvf ra) = None \/ exists msrc, alookup N.eqb c (mvf ra) = Some msrc /\ alookup beqb msrc (wfp ra) = None)).
+    { destruct (watch_of_ino k (f_ino dp)) as [kwp|] eqn:Ewp.
+      - destruct (watched_entry w k r dp kwp W I Hdp Ewp) as (_ & _ & (_ & Pp & _) & _).
+        cbn [read_batch]. rewrite (read_one_from _ _ _ _ _ (dirname p)); try (vm_compute; reflexivity);
+          [|cbn [mv_from kev k_wd]; now rewrite Pp, Edp'].
+        cbn [mv_from kev k_cookie k_name]. rewrite SPp. fold r1. eexists r1, _. split; [reflexivity|]. split; [now right|].
+        right. exists p. cbn [r1 mvf wfp]. split; [apply pset_eq | exact Hwp].
+      - exists r, []. split; [reflexivity|]. split; [now left|]. left.
+        destruct (alookup N.eqb c (mvf r)) eqn:E; [|reflexivity]. apply (wi_mvf _ _ _ I) in E. unfold c in E. lia. }
+    destruct Hfrom as (ra & evs1 & -> & Hra & Hlk).
+    assert (Hra_w : wfp ra = wfp r /\ pfw ra = pfw r) by (destruct Hra as [->| ->]; now split).
+    assert (Hto : exists evs2,
+      read_batch C (frename p q t1) (ra, k0, evs1)
+        match watch_of_ino k (f_ino dq) with Some kw => [mv_to kw false c (basename q)] | None => [] end = Done (ra, k0, evs2)).
+    { destruct (watch_of_ino k (f_ino dq)) as [kwq|] eqn:Ewq.
+      - destruct (watched_entry w k r dq kwq W I Hdq Ewq) as (_ & _ & (_ & Pq & _) & _).
+        cbn [read_batch]. rewrite (read_one_to_plain _ _ _ _ _ (dirname q)); try (vm_compute; reflexivity).
+        + eexists. reflexivity.
+        + cbn [mv_to kev k_wd]. destruct Hra_w as [_ ->]. now rewrite Pq, Edq'.
+        + exact Hlk.
+        + cbn [mv_to kev k_mask]. change (is_directory IN_MOVED_TO) with false.
+          destruct (c_fix_movein C), (c_recursive C); reflexivity.
+      - exists evs1. reflexivity. }
+    destruct Hto as (evs2 & ->). eexists _, _, _. split; [reflexivity|]. destruct Hra_w as [Hw1 Hw2].
+    split; [|now split].
+    apply (RSync_same w _ k k0 r ra W' S0 Hfs); try reflexivity; try assumption.
+    cbn [k0 drainq kset_queue k_next_cookie]. destruct Hra as [->| ->].
+    - intros c' x Hx. apply (wi_mvf _ _ _ I) in Hx. fold c in Hx. lia.
+    - cbn [r1 mvf]. apply mvf_aset_lt; [exact 0%N | apply I].
+  Qed.
 End Cover.
